@@ -96,7 +96,7 @@ func runC11(c *Ctx) {
 	c.rule("D10", "WrapIfNotCommonError / WrapIfNotCommonErrorf: the branch that gives the result the kind of the cause is reached only where the target was found not to be a cancellation or a deadline", 2)
 	c.rule("D9", "serialisation: where the parsed kind is replaced by the error Unwrap() returned, the description of that error is compared with the parsed text and the reason is rewritten accordingly (what the wrapped error already says is not said twice)", 1)
 	c.rule("D7", "writer and reader of the text form agree on the separators: kind/reason (constructors vs deserialiser) and joined errors (marshaller, errors.Join vs deserialiser); every line of a joined error is read, whatever its length", 3)
-	c.rule("D8", "the filesystem converter maps a backend condition to one kind whatever the path: no case that recognises a condition by the error's text (which embeds the caller's path) is evaluated before a case that recognises another condition structurally; the timeout case recognises Timeout() errors (os.IsTimeout); no converter that goes by the text is applied before the table", 3)
+	c.rule("D8", "the filesystem converter maps a backend condition to one kind whatever the path: no case that recognises a condition by the error's text (which embeds the caller's path) is evaluated before a case that recognises another condition structurally; the timeout case recognises Timeout() errors (os.IsTimeout); no converter that goes by the text is applied before the table; the same order in the process converter", 4)
 	c.rule("D5", "every call of commonerrors.Any / None has at least one candidate error", 45)
 
 	p := c.tpkg(cePkg)
@@ -773,13 +773,21 @@ var _ = types.Universe
 // the error's text (commonerrors.CorrespondTo). The text of an *os.PathError contains the path the caller supplied:
 // a textual case placed before a structural case of another kind lets the path decide the kind.
 func (c *Ctx) c11ConverterTables() {
-	p := c.tpkg("filesystem")
-	fd := funcDecl(p, "ConvertFileSystemError")
+	c.c11ConverterTable("filesystem", "ConvertFileSystemError", true)
+	c.c11ConverterTable("proc", "ConvertProcessError", false)
+}
+
+// c11ConverterTable: the order obligation of D8 on one converter; for the filesystem converter also what is applied before
+// the table and the timeout case.
+func (c *Ctx) c11ConverterTable(pkgRel, fnName string, isFilesystem bool) {
+	p := c.tpkg(pkgRel)
+	fd := funcDecl(p, fnName)
 	if fd == nil {
-		c.fatalf("anchor: filesystem.ConvertFileSystemError not found")
+		c.fatalf("anchor: " + pkgRel + "." + fnName + " not found")
 		return
 	}
-	c.FuncsSeen["filesystem.ConvertFileSystemError"] = true
+	conv := pkgRel + "." + fnName
+	c.FuncsSeen[conv] = true
 	var sw *ast.SwitchStmt
 	ast.Inspect(fd.Body, func(n ast.Node) bool {
 		if x, ok := n.(*ast.SwitchStmt); ok && sw == nil && x.Tag == nil {
@@ -788,7 +796,7 @@ func (c *Ctx) c11ConverterTables() {
 		return true
 	})
 	if sw == nil {
-		c.undecided("D8", "filesystem.ConvertFileSystemError/order", c.pos(fd.Pos()), "no tagless switch found")
+		c.undecided("D8", conv+"/order", c.pos(fd.Pos()), "no tagless switch found")
 		return
 	}
 	type clause struct {
@@ -847,7 +855,7 @@ func (c *Ctx) c11ConverterTables() {
 		}
 		ast.Inspect(&ast.BlockStmt{List: cc.Body}, func(n ast.Node) bool {
 			if se, ok := n.(*ast.SelectorExpr); ok {
-				if id, ok := se.X.(*ast.Ident); ok && id.Name == "commonerrors" && strings.HasPrefix(se.Sel.Name, "Err") && cl.kind == "unchanged" {
+				if id, ok := se.X.(*ast.Ident); ok && (id.Name == "commonerrors" || id.Name == "os") && strings.HasPrefix(se.Sel.Name, "Err") && cl.kind == "unchanged" {
 					cl.kind = se.Sel.Name
 				}
 			}
@@ -873,9 +881,12 @@ func (c *Ctx) c11ConverterTables() {
 		}
 	}
 	if bad != "" {
-		c.violate("D8", "filesystem.ConvertFileSystemError/order", c.pos(badPos), bad)
+		c.violate("D8", conv+"/order", c.pos(badPos), bad)
 	} else {
-		c.ok("D8", "filesystem.ConvertFileSystemError/order", c.pos(sw.Pos()), strconv.Itoa(len(clauses))+" cases: every structural case precedes the cases that go by the error's text")
+		c.ok("D8", conv+"/order", c.pos(sw.Pos()), strconv.Itoa(len(clauses))+" cases: every structural case precedes the cases that go by the error's text")
+	}
+	if !isFilesystem {
+		return
 	}
 	// converters called on the error before the table: none of them goes by the error's text
 	{
